@@ -11,7 +11,7 @@ Open Scope N_scope.
 Inductive case :=
 (* one value. elems/tail: the bytes written; size_el/size_by: size_in_elements / size_in_bytes;
    extra: bytes that followed the value in the reader; consumed: bytes the counting reader handed out;
-   eq_loaded: loaded == original; eq_answers: a few queries agree; sbp: size_by_params where the type has it *)
+   eq_loaded: loaded == original; eq_answers: a few queries agree (and, where tried, serialize_to / load_from through a file gave the same bytes and an equal value); sbp: size_by_params where the type has it *)
 | CRound (path : N) (dbg : bool) (t : ty) (r : recipe) (elems tail : list N)
          (size_el size_by : N) (extra : list N) (consumed : N) (eq_loaded eq_answers : bool) (sbp : option N)
 (* several values in one stream; consumed: per value *)
